@@ -27,16 +27,16 @@ pub struct Doc {
 
 pub const LEADING: [&str; 4] = ["", "# l\n", "\n", "# l\n\n"];
 pub const NAMES_ALT: [&str; 5] = ["X-y", "a.b+c~1", "A#b", "0", "[x]"];
-pub const COLONS: [&str; 4] = [": ", ":", ":\t", ":  "];
-pub const FIRSTS: [&str; 9] = ["v", "v w", "é ü", "", "#x", ":x", "a: b", "x\ty", "v  "];
-pub const CONTS: [&str; 8] = ["", "w", "é", ".", "a:b", ":x", "-x", "<blank>"]; // "" = absent; "<blank>" = a continuation line holding nothing but its indentation
+pub const COLONS: [&str; 5] = [": ", ":", ":\t", ":  ", ":\t "];
+pub const FIRSTS: [&str; 13] = ["v", "v w", "é ü", "", "#x", ":x", "a: b", "x\ty", "v  ", "日本語 😀", "v\u{a0}w\t", "ends:", "\u{202e}rtl"];
+pub const CONTS: [&str; 10] = ["", "w", "é", ".", "a:b", ":x", "-x", "w  ", "😀 z\tq", "<blank>"]; // "" = absent; "<blank>" = a continuation line holding nothing but its indentation
 pub const INDENTS: [&str; 4] = [" ", "\t", "   ", " \t"];
 pub const SEPS: [&str; 3] = ["\n", "\n\n", "\n# s\n\n"];
 pub const TRAILING: [&str; 4] = ["", "\n", "# t\n", "\n# t\n"];
 
 pub const FIELD_SLOTS: usize = 8;
 // per field: ncomments, name, colon, first, cont1, ind1, cont2, ind2
-const FIELD_MENUS: [usize; FIELD_SLOTS] = [3, 7, 4, 9, 8, 4, 8, 4];
+const FIELD_MENUS: [usize; FIELD_SLOTS] = [3, 7, 5, 13, 10, 4, 10, 4];
 
 pub fn menus(sk: Skel) -> Vec<usize> {
     let mut m = vec![LEADING.len()];
